@@ -613,6 +613,10 @@ func polylineIntersectsFeature(polyline *s2.Polyline, feature Feature) bool {
 	if f, ok := feature.(Geometry); ok {
 		switch f.GeometryType() {
 		case GeometryTypePoint:
+			if len(*polyline) == 0 {
+				// Nothing to project onto: an empty polyline intersects nothing
+				return false
+			}
 			projection, _ := polyline.Project(f.Point())
 			// TODO: Define the tolerance with more rigour
 			return projection.Distance(f.Point()) < MetersToAngle(0.001)
